@@ -36,7 +36,7 @@ def run_case(case):
     from xstate_statemachine import SyncInterpreter, create_machine
     from xstate_statemachine.events import Event
     tr = M.Trace()
-    m = create_machine(copy.deepcopy(case["config"]), logic=M.make_logic(case["config"], tr))
+    m = create_machine(M.materialize(case["config"]), logic=M.make_logic(case["config"], tr))
     it = SyncInterpreter(m)
     try:
         it.start()
